@@ -132,15 +132,21 @@ def y_scripts(seed, count, reentrant):
         sig = rnd.choice(["none", "int"] if reentrant else SIGS)
         xid = "y%s%d" % ("r" if reentrant else "p", n)
         steps = []
+        nsub = 0    # subscribes issued so far (an upper bound of the ids handed out by the test itself)
         for _ in range(rnd.randrange(20, 100)):
             r = rnd.random()
             h = rnd.choice(hs)
             if r < 0.25:
                 sc = []
                 if reentrant and rnd.random() < 0.6:
-                    for _ in range(rnd.randrange(1, 3)):
-                        k = rnd.choice(["unsub", "mute", "unmute", "inval", "sub", "notify"])
-                        sc.append({"k": k, "t": 0 if k in ("sub", "notify") else rnd.randrange(0, 12)})
+                    # targets: mostly the observers subscribed most recently (likely to be alive, called earlier in the same round or
+                    # still pending) and itself; a third of the scripts are removal-heavy (several observers leave in ONE callback)
+                    heavy = rnd.random() < 0.33
+                    for _ in range(rnd.randrange(2, 4) if heavy else rnd.randrange(1, 3)):
+                        k = rnd.choice(["unsub", "unsub", "inval"] if heavy else ["unsub", "mute", "unmute", "inval", "sub", "notify"])
+                        near = rnd.choice([0] + list(range(max(1, nsub - 3), nsub + 3)))
+                        sc.append({"k": k, "t": 0 if k in ("sub", "notify") else (near if rnd.random() < 0.7 else rnd.randrange(0, 12))})
+                nsub += 1
                 steps.append(("Subscribe" if reentrant or rnd.random() < 0.8 else "SubscribeMuted", h, "", 0, sc))
             elif r < 0.31 and not reentrant:
                 steps.append(("UnsubF", h, "", 0, []))
